@@ -789,12 +789,18 @@ def _blacklist_model(r, fi, name, with_siblings, bl, loop, prov, where):
                     'IndexError for every submission instead of hiding the instructor variables and grading' % short(n), where,
                     expected='%s[0]' % pn, found=unparse(n))
         return
-    sample = {'x': 1.0, 'iv_in': 2.0}
-    env = {"self.config['instructor_vars']": ['iv_in', 'iv_out'], 'var_samples': [sample, dict(sample)]}
-    want = {'iv_in'}
+    # Symbolic universe.  The sampled scope (var_samples[k]) holds every configured variable, every constant, every INSTANCE of
+    # a numbered variable met in the expressions and (FormulaGrader) the sibling variables; instructor_vars is not validated, so
+    # it may name any of these or nothing at all.  Element names spell the region they stand for.
+    sample = {'x': 1.0, 'iv_variable': 2.0, 'pi': 3.0, 'iv_constant': 4.0, 'iv_numbered_{0}': 5.0}
+    env = {"self.config['instructor_vars']": ['iv_variable', 'iv_constant', 'iv_numbered_{0}', 'iv_nowhere'],
+           "self.config['variables']": ['x', 'iv_variable'], "self.config['numbered_vars']": ['iv_numbered'],
+           "self.constants": {'pi': 3.0, 'iv_constant': 4.0}, "self.config['user_constants']": {'iv_constant': 4.0},
+           'var_samples': [sample]}
+    want = {'iv_variable', 'iv_constant', 'iv_numbered_{0}'}
     if with_siblings:
         sample.update({'sibling_1': 3.0, 'sibling_2': 4.0})
-        env['var_samples'] = [sample, dict(sample)]
+        env['var_samples'] = [sample]
         env['sibling_formulas'] = {'sibling_1': 'a+1', 'sibling_2': 'b'}
         want |= {'sibling_1', 'sibling_2'}
     # names the black-list is computed from
@@ -843,12 +849,19 @@ def _blacklist_model(r, fi, name, with_siblings, bl, loop, prov, where):
             parts.append('sibling name(s) %s are not black-listed although siblings are always part of the samples: the student can refer '
                          "to another input box (e.g. add 0*sibling_1) and is not rejected" % sib)
         if iv:
-            parts.append('the sampled instructor variable %s is not black-listed: it stays usable by the student' % iv)
-        r.violation(construct, "over the symbolic universe (instructor_vars ['iv_in', 'iv_out'], samples %s%s) `%s` evaluates to %s; %s"
+            kinds = {'iv_variable': 'a configured variable', 'iv_constant': 'a constant',
+                     'iv_numbered_{0}': 'an INSTANCE of a numbered variable (such names exist only in the sampled scope, not in '
+                                        "config['variables'] or the constants)"}
+            parts.append('the instructor variable(s) %s present in the sampled scope are not black-listed (%s): they stay usable by the '
+                         'student; membership must be tested against the sampled scope var_samples[0]'
+                         % (iv, '; '.join('%s is %s' % (x, kinds.get(x, 'sampled')) for x in iv)))
+        r.violation(construct, "over the symbolic universe (instructor_vars = a variable, a constant, a numbered instance and an unknown "
+                    "name; sampled scope %s%s) `%s` evaluates to %s; %s"
                     % (sorted(sample), ', sibling_formulas sibling_1/sibling_2' if with_siblings else '', bl, got, '; '.join(parts)), where,
                     expected='black-list >= (instructor_vars & samples) | keys(sibling_formulas) = %s' % sorted(want), found=str(got))
     elif extra:
-        why = 'an ordinary variable is deleted from the student\'s scope: correct answers using it are refused' if 'x' in extra else \
+        why = 'an ordinary variable/constant is deleted from the student\'s scope: correct answers using it are refused' \
+            if set(extra) & {'x', 'pi'} else \
               'a name that is not in the samples is black-listed: `del` raises KeyError for every submission'
         r.violation(construct, 'over the symbolic universe `%s` evaluates to %s, expected %s: %s' % (bl, got, sorted(want), why), where,
                     expected=str(sorted(want)), found=str(got))
@@ -1316,6 +1329,8 @@ MUTANTS = [
            "            if var not in var_samples[0]:\n                var_blacklist.append(var)\n\n        for i in range(self.config['samples']):\n            # Update the functions and variables listings with this sample\n            funclist.update(func_samples[i])\n            varlist.update(var_samples[i])\n\n            # Evaluate sums.", 'D4'),
     Mutant('sweep-sum-second-sample-membership', IG, "            if var in var_samples[0]:\n                var_blacklist.append(var)\n\n        for i in range(self.config['samples']):\n            # Update the functions and variables listings with this sample\n            funclist.update(func_samples[i])\n            varlist.update(var_samples[i])\n\n            # Evaluate sums.",
            "            if var in var_samples[1]:\n                var_blacklist.append(var)\n\n        for i in range(self.config['samples']):\n            # Update the functions and variables listings with this sample\n            funclist.update(func_samples[i])\n            varlist.update(var_samples[i])\n\n            # Evaluate sums.", 'D4'),
+    Mutant('seeded-blacklist-membership-in-configured-names', IG, "        var_blacklist = []\n        for var in self.config['instructor_vars']:\n            if var in var_samples[0]:\n                var_blacklist.append(var)\n\n        for i in range(self.config['samples']):\n            # Update the functions and variables listings with this sample\n            funclist.update(func_samples[i])\n            varlist.update(var_samples[i])\n\n            # Evaluate sums.",
+           "        defined = set(self.config['variables']).union(self.constants)\n        var_blacklist = [var for var in self.config['instructor_vars'] if var in defined]\n\n        for i in range(self.config['samples']):\n            # Update the functions and variables listings with this sample\n            funclist.update(func_samples[i])\n            varlist.update(var_samples[i])\n\n            # Evaluate sums.", 'D4'),
     Mutant('only-first-sibling-blacklisted', FG, "        var_blacklist += sibling_vars\n", "        var_blacklist += sibling_vars[:1]\n", 'D4'),
     # D5
     Mutant('check-scope-skipped', EXPR, "        self.check_scope(variables, functions, suffixes)\n\n        # metadata_dict", "        # metadata_dict", 'D5'),
